@@ -4,7 +4,7 @@ From Coq Require Import QArith Sorting.Permutation.
 From RecordUpdate Require Import RecordUpdate.
 From Asynkit Require Import Base.Prelude Queue.PQ Queue.Order Queue.PosPQ Queue.Exec Sched.Model
   Sched.Corr Sched.Tables Sched.QFacts Sched.LockInv Sched.Footprint Sched.LockOps Sched.LockLib
-  Sched.LockProofs.
+  Sched.LockProofs Sched.LockStatic.
 Import RecordSetNotations.
 Open Scope nat_scope.
 
@@ -26,15 +26,18 @@ Theorem mutex_of_inv s l :
   (* a PriorityTask that owns l records it *)
   (forall t, lowner (getl s l) = Some t -> is_prio_task s t = true -> In l (tholding (gett s t))) /\
   (* locked() reflects ownership *)
-  (lkind_ (getl s l) = LPrio -> (llocked (getl s l) = true <-> exists t, lowner (getl s l) = Some t)).
+  (lkind_ (getl s l) = LPrio -> (llocked (getl s l) = true <-> exists t, lowner (getl s l) = Some t)) /\
+  (* and nobody records l twice *)
+  (forall t, count_occ Nat.eq_dec (tholding (gett s t)) l <= 1).
 Proof.
-  intros I Hl. split; [|split; [|split]].
+  intros I Hl. split; [|split; [|split; [|split]]].
   - intros t1 t2 H1 H2. pose proof (iA2 I _ _ Hl H1). pose proof (iA2 I _ _ Hl H2). congruence.
   - intros t H. apply (iA2 I); auto.
   - intros t. apply (iA3 I).
   - intros Hk. rewrite <- (iA1 I l Hk). destruct (lowner (getl s l)) as [t|].
     + split; [eauto|congruence].
     + split; [congruence|intros [t H]; discriminate].
+  - intros t. apply (iA6 I); auto.
 Qed.
 
 (* ---------------------------------------------------------------- the assertion never fires *)
@@ -220,7 +223,8 @@ Theorem mutex_reach l :
   (forall t1 t2, In l (tholding (gett s t1)) -> In l (tholding (gett s t2)) -> t1 = t2) /\
   (forall t, In l (tholding (gett s t)) -> lowner (getl s l) = Some t) /\
   (forall t, lowner (getl s l) = Some t -> is_prio_task s t = true -> In l (tholding (gett s t))) /\
-  (lkind_ (getl s l) = LPrio -> (llocked (getl s l) = true <-> exists t, lowner (getl s l) = Some t)).
+  (lkind_ (getl s l) = LPrio -> (llocked (getl s l) = true <-> exists t, lowner (getl s l) = Some t)) /\
+  (forall t, count_occ Nat.eq_dec (tholding (gett s t)) l <= 1).
 Proof. apply mutex_of_inv. apply reach_inv. Qed.
 
 Theorem one_woken_reach l :
@@ -251,3 +255,23 @@ Theorem wake_in_flight_reach l :
   exists f, In f (pq_objs (lpq (getl s l))) /\ fdone s f = true.
 Proof. apply (C13_wake_in_flight_all prio_loop factor draws lks cds nev acts Hok l). Qed.
 End Reachable.
+
+(* ---------------------------------------------------------------- the static side condition *)
+Theorem static_reach p fa dr lks cds nev acts :
+  Forall act_static acts ->
+  let s := fold_left do_action acts (init_st p fa dr lks cds nev) in
+  Inv s /\ WF4 s.
+Proof.
+  intros H s. pose proof (run_ok_static_init p fa dr lks cds nev acts H) as Hok. split.
+  - now apply C13_inv_all.
+  - now apply C13_wake_in_flight_all.
+Qed.
+
+(* the run of the examples is in the static class *)
+Example acts_static_example : Forall act_static (acts_a ++ acts_b ++ acts_c).
+Proof.
+  unfold acts_a, acts_b, acts_c. rewrite <- !map_app. apply Forall_forall. intros a Ha.
+  apply in_map_iff in Ha as (x & <- & Hx). simpl in Hx.
+  repeat (destruct Hx as [<-|Hx]; [cbn [act act_static]; try exact I; try (split; [exact I|reflexivity]);
+          try (apply denote_task_nosr; cbn; tauto)|]). destruct Hx.
+Qed.
